@@ -76,6 +76,17 @@ def run(ctx):
             add({"kind": "sf", "z": z, "E": Ev, "vector": True, "wavelength": (j % 2 == 0)})
     for z in without[:8]:
         add({"kind": "sf", "z": z, "E": [8.0]})
+    # ions of isotopes have the factors of their element: the named hydrogen isotopes D and T (whose symbol is not the
+    # element's) in both charge states, and one isotope ion of every chosen element that has ions
+    iso_all = rawtables.isotope_list()
+    for a, q in ((2, 1), (3, 1), (2, -1), (3, -1), (1, 1)):
+        if q in eb[1][2]:
+            for E in (0.03, 1.0, 8.048, 29.9, 0.005):
+                add({"kind": "sf", "z": 1, "E": [E], "via": [a, q]})
+    rows_of.setdefault(1, read_nff(eb[1][1]))
+    for z in chosen:
+        if eb[z][2] and iso_all.get(z):
+            add({"kind": "sf", "z": z, "E": [rng.choice([0.5, 8.048, 17.479])], "via": [rng.choice(iso_all[z]), rng.choice(eb[z][2])]})
     # ---- compounds, relations, reflectivity, f0
     others = []
 
